@@ -35,12 +35,30 @@ def check_exit(ctx, out):
         out.inst("C11.exit", 0, 6)
         return
     b, bi, t = sites[0]
+    if b.id == "bwbin::main":
+        # the exit decision sits in main itself (the report is built and written by helpers): read main
+        # with those helpers looked through
+        bv0 = ctx.inl(b, skip=lambda cb: not cb.id.startswith("bwbin::"), tag="bin-only", sugar=True)
+        xs0 = [(bj, tj) for bj, tj in bv0.calls() if callee_matches(tj, r"^std::process::(exit|abort)$") and bj in cfg_of(bv0).reachable]
+        if len(xs0) == 1:
+            b, (bi, t) = bv0, xs0[0]
     code = util.const_val(ctx, b, t["args"][0]) if t["args"] else None
     if code == 1:
         n += 1
     else:
         out.viol("C11.exit", "C11.exit|code", ctx.where(b, t["span"]), "process::exit is called with %r, documented failure status is 1" % (code,))
     cfg = cfg_of(b)
+    # which severities make the run fail: decided on a small model when the model can follow the code
+    tr = out.trial()
+    try:
+        decided = check_exit_model(ctx, tr, rule="C11.exit")
+    except Exception as e:      # noqa: BLE001
+        ctx.view_fallbacks.append("C11.exit: small-model analysis failed (%s: %s)" % (type(e).__name__, e))
+        decided = None
+    if decided is not None:
+        out.adopt(tr)
+        _check_out(ctx, out, b, bi, cfg)
+        return
     # the guard flag
     flag = None
     for br, vals, e in util.guards(ctx, b, bi):
@@ -64,7 +82,8 @@ def check_exit(ctx, out):
                     src = render(ctx.expr(bv).operand(its[0][1]["args"][0]), 2000) if its else ""
                     from rules.shared import TRUNCATING
                     trunc = [c[1].split("::")[-1] for c in walk(ctx.expr(bv).operand(its[0][1]["args"][0])) if c[0] == "call" and (TRUNCATING.search(c[1]) or re.search(r"Iterator>?::(filter|filter_map)$", c[1]))] if its else ["?"]
-                    if its and not trunc and any(ps == "param" for ps in [x[0] for x in walk(ctx.expr(bv).operand(its[0][1]["args"][0]))]):
+                    srcx = list(walk(ctx.expr(bv).operand(its[0][1]["args"][0]))) if its else []
+                    if its and not trunc and (any(x[0] == "param" for x in srcx) or any(x[0] == "call" and re.search(r"validators::run$", x[1]) for x in srcx)):
                         direct = True
                     else:
                         out.viol("C11.exit", "C11.exit|scan", ctx.where(b, t["span"]), "the scan that decides the exit status does not run over every diagnostic of the reported map (%s)" % (trunc or src[:80]))
@@ -147,51 +166,63 @@ def _check_exit_flag(ctx, out, b, bi, t, cfg, flag, n):
 def _check_out(ctx, out, b, bi, cfg):
     # ---------------------------------------------------------------- C11.out
     m = 0
-    main = ctx.main_view()
-    writers = [(bb, tt) for bb, tt in b.calls() if callee_matches(tt, r"serde_json::to_writer_pretty$|serde_json::to_writer$")]
+    in_main = b.id == "bwbin::main"
+    main = b if in_main else ctx.main_view()
+
+    def stream_of(body, wt):
+        labs = ctx.prov.read_operand(body, wt["args"][0])
+        if P.has_call(labs, r"^std::io::stderr$") and not P.has_call(labs, r"^std::io::stdout$"):
+            return "stderr"
+        if P.has_call(labs, r"^std::io::stdout$") and not P.has_call(labs, r"^std::io::stderr$"):
+            return "stdout"
+        return "?"
+    bcfg = cfg_of(b)
+    all_w = [(bb, tt) for bb, tt in b.calls() if callee_matches(tt, r"serde_json::to_writer_pretty$|serde_json::to_writer$") and bb in bcfg.reachable]
+    writers = [(bb, tt) for bb, tt in all_w if stream_of(b, tt) != "stdout"] if in_main else all_w
     if len(writers) == 1:
         wb, wt = writers[0]
-        labs = ctx.prov.read_operand(b, wt["args"][0])
-        if P.has_call(labs, r"^std::io::stderr$") and not P.has_call(labs, r"^std::io::stdout$"):
+        if stream_of(b, wt) == "stderr":
             m += 1
         else:
             out.viol("C11.out", "C11.out|stream", ctx.where(b, wt["span"]), "the diagnostics are not written to stderr")
-        if cfg.dominates(wb, bi):
+        if bcfg.dominates(wb, bi):
             m += 1
         else:
             out.viol("C11.out", "C11.out|report-before-exit", ctx.where(b, wt["span"]), "the report does not precede the exit on every path")
-        if not cfg.loops_containing(wb):
+        if not bcfg.loops_containing(wb):
             m += 1
         else:
             out.viol("C11.out", "C11.out|one-document", ctx.where(b, wt["span"]), "the report is written inside a loop: stderr would hold several JSON documents")
     else:
-        out.viol("C11.out", "C11.out|writer-count", ctx.where(b), "expected exactly one JSON writer call in the report function, found %d" % len(writers))
+        out.viol("C11.out", "C11.out|writer-count", ctx.where(b), "expected exactly one JSON writer call for the diagnostics report, found %d" % len(writers))
     if main is not None:
         mcfg = cfg_of(main)
-        # report only for a non-empty map
-        for bb, tt in main.calls():
-            if (tt.get("res") or "") == b.id:
-                ok = False
-                for br, vals2, e in util.guards(ctx, main, bb):
-                    txt = render(e, 400)
-                    if re.search(r"HashMap::is_empty\(", txt) and vals2 == {0}:
+        # report only for a non-empty map; its input is the validators' result
+        report_sites = [(bb, tt) for bb, tt in main.calls() if (tt.get("res") or "") == b.id] if not in_main else ([writers[0]] if len(writers) == 1 else [])
+        for bb, tt in report_sites:
+            ok = False
+            for br, vals2, e in util.guards(ctx, main, bb):
+                txt = render(e, 400)
+                if re.search(r"HashMap::is_empty\(", txt) and vals2 == {0}:
+                    ok = True
+            if not ok and len(writers) == 1 and not in_main:
+                # ... or the report function itself returns early for an empty map
+                for br, vals2, e in util.guards(ctx, b, writers[0][0]):
+                    if re.search(r"HashMap::is_empty\(", render(e, 400)) and vals2 == {0} and any(x[0] == "param" for x in walk(e)):
                         ok = True
-                if not ok and len(writers) == 1:
-                    # ... or the report function itself returns early for an empty map
-                    for br, vals2, e in util.guards(ctx, b, writers[0][0]):
-                        if re.search(r"HashMap::is_empty\(", render(e, 400)) and vals2 == {0} and any(x[0] == "param" for x in walk(e)):
-                            ok = True
-                if ok:
-                    m += 1
-                else:
-                    out.viol("C11.out", "C11.out|empty-guard", ctx.where(main, tt["span"]), "the report function is not guarded by `!violations.is_empty()`: an empty `{}` would be printed for a clean run")
-                labs = ctx.prov.read_operand(main, tt["args"][0])
-                if P.has_call(labs, r"validators::run$"):
-                    m += 1
-                else:
-                    out.viol("C11.out", "C11.out|report-input", ctx.where(main, tt["span"]), "the reported map is not the result of running the validators")
+            if ok:
+                m += 1
+            else:
+                out.viol("C11.out", "C11.out|empty-guard", ctx.where(main, tt["span"]), "the report is not guarded by `!violations.is_empty()`: an empty `{}` would be printed for a clean run")
+            src_op = tt["args"][0] if not in_main else tt["args"][1]
+            labs = ctx.prov.read_operand(main, src_op)
+            if P.has_call(labs, r"validators::run$"):
+                m += 1
+            else:
+                out.viol("C11.out", "C11.out|report-input", ctx.where(main, tt["span"]), "the reported map is not the result of running the validators")
         # list goes to stdout and returns
-        lw = [(bb, tt) for bb, tt in main.calls() if callee_matches(tt, r"serde_json::to_writer_pretty$|serde_json::to_writer$")]
+        lw = [(bb, tt) for bb, tt in main.calls() if callee_matches(tt, r"serde_json::to_writer_pretty$|serde_json::to_writer$") and bb in mcfg.reachable
+              and (not in_main or stream_of(main, tt) == "stdout")]
         if len(lw) == 1:
             labs = ctx.prov.read_operand(main, lw[0][1]["args"][0])
             labs2 = ctx.prov.read_operand(main, lw[0][1]["args"][1])
@@ -492,6 +523,21 @@ def check_items(ctx, out, rule="C11.items"):
     violations and the written document."""
     from rules.shared import TRUNCATING
     LOSSY = r"::(dedup|dedup_by|dedup_by_key|retain|retain_mut|truncate|pop|remove|swap_remove|drain|clear|split_off)$"
+    # decided on the small model of the exit rule when the written document is fully known there
+    if "_report_doc" not in ctx.__dict__:
+        try:
+            check_exit_model(ctx, out.trial())
+        except Exception:       # noqa: BLE001
+            ctx.__dict__["_report_doc"] = (None, [])
+    verdict, bad = ctx.__dict__.get("_report_doc", (None, []))
+    if verdict is True:
+        out.inst(rule, 1, 1, ["small model {P1: [V1, V2], P2: [V3]}: the written document holds every violation exactly once under its file"], exhaustive=True)
+        return
+    if verdict is False:
+        case, got = bad[0]
+        out.viol(rule, "%s|model" % rule, "-", "small model: violations {P1: [V1, V2], P2: [V3]} with severities %s are written as %s: every violation of every file must appear in the report exactly once" % (list(case), got))
+        out.inst(rule, 0, 1)
+        return
     rb = None
     for b in ctx.reachable_bodies():
         if b.id.startswith("bwbin::") and any(callee_matches(t, r"^std::process::(exit|abort)$") for _, t in b.calls()):
@@ -552,6 +598,157 @@ def check_items(ctx, out, rule="C11.items"):
             continue
         n += 1
     out.inst(rule, n, 1, note="loops over a file's violations in the report function: one appended entry per iteration, no keyed / lossy container")
+
+
+def check_exit_model(ctx, out, rule="C11.exitmodel"):
+    """The exit decision on a small model (engine.casewalk + engine.listmodel): the violations are the
+    concrete map {P1: [V1, V2], P2: [V3]}; for each of the 8 assignments of severities {error, warning}
+    the report code is walked. Expected: `process::exit` is reached exactly when some violation has
+    severity error, and the function returns Ok exactly when none has - however the flag is computed
+    (sticky flag, `any` over a flattened scan, a field of a report struct, decided in main)."""
+    from engine import casewalk as CW
+    from engine import listmodel as LM
+    import itertools
+    sites = [(b, bi, t) for b in ctx.reachable_bodies() for bi, t in b.calls() if callee_matches(t, r"^std::process::(exit|abort)$")]
+    if len(sites) != 1:
+        return None
+    b0 = sites[0][0]
+    if b0.id == "bwbin::main":
+        v = ctx.inl(b0, skip=lambda cb: not cb.id.startswith("bwbin::"), tag="bin-only", sugar=True)
+    else:
+        v = ctx.inl(b0, skip=ctx.domain_api, tag="domain", sugar=True)
+    cfg = cfg_of(v)
+    MAPTY = r"^&?(mut )?std::collections::HashMap<std::path::PathBuf, std::vec::Vec<blockwatch::validators::Violation>"
+    params = [i for i in range(1, v.argc + 1) if re.match(MAPTY, v.local_ty(i))]
+    producers = {bi for bi, t in v.calls() if re.match(r"^std::result::Result<std::collections::HashMap<std::path::PathBuf, std::vec::Vec<blockwatch::validators::Violation>", t.get("dest_ty") or "") and callee_matches(t, r"validators::run$")}
+    if not params and not producers:
+        return None
+    sev = ctx.facts.adts.get("blockwatch::blocks::BlockSeverity")
+    if not sev:
+        return None
+    disc = {x["name"]: x.get("discr", x["vi"]) for x in sev["variants"]}
+    std = CW.std_hooks()
+    lm = LM.hooks()
+    n = 0
+    doc_ok = [None]
+    doc_unknown = [False]
+    doc_bad = []
+    for case in itertools.product(("Error", "Warning"), repeat=3):
+        sevs = dict(zip(("V1", "V2", "V3"), case))
+        the_map = LM.lst([("tuple", (CW.sym("P1"), LM.lst([CW.sym("V1"), CW.sym("V2")]))), ("tuple", (CW.sym("P2"), LM.lst([CW.sym("V3")])))])
+        seen = set()
+        docs = []
+
+        def hook(w, bb, t, argv, env):
+            nm = callee_name(t)
+            a0 = w.deref_val(env, argv[0]) if argv else CW.TOP
+            if bb in producers:
+                return CW.adt("std::result::Result", "Ok", 0, [("0", the_map)])
+            if callee_matches(t, r"^std::process::(exit|abort)$"):
+                seen.add("exit")
+                return "diverge"
+            if re.search(r"validators::Violation::as_simple_diagnostic$", nm) and a0[0] == "sym" and a0[1] in sevs:
+                s = sevs[a0[1]]
+                return ("adt", "blockwatch::validators::SimpleDiagnostic", "SimpleDiagnostic", None,
+                        (("severity", ("adt", "blockwatch::blocks::BlockSeverity", s, disc[s], ())), ("of", a0)))
+            if re.search(r"SimpleDiagnostic(::<'_>)?::severity$", nm) and a0[0] == "adt":
+                return w.field(a0, "severity")
+            if re.search(r"serde_json::to_value$", nm):
+                if a0[0] == "adt" and a0[1].endswith("SimpleDiagnostic"):
+                    return CW.adt("std::result::Result", "Ok", 0, [("0", CW.sym("json", w.field(a0, "of")))])
+                if a0[0] == "list":
+                    return CW.adt("std::result::Result", "Ok", 0, [("0", LM.lst(tuple(CW.sym("json", w.field(x, "of")) if x[0] == "adt" else CW.TOP for x in a0[1])))])
+                return CW.adt("std::result::Result", "Ok", 0, [("0", CW.sym("JSON"))])
+            if re.search(r"serde_json::(to_writer_pretty|to_writer)$", nm):
+                doc = w.deref_val(env, argv[1]) if len(argv) > 1 else CW.TOP
+                stream = argv[0] if argv else CW.TOP
+                docs.append(doc)
+                return CW.adt("std::result::Result", "Ok", 0, [("0", CW.const(0))])
+            if re.search(r"serde_json::(to_string_pretty|to_string)$", nm):
+                docs.append(a0)
+                return CW.adt("std::result::Result", "Ok", 0, [("0", CW.sym("JSON"))])
+            if re.search(r"io::Write>?::(write_fmt|write_all|flush)$|io::stdio::_?e?print$", nm):
+                return CW.adt("std::result::Result", "Ok", 0, [("0", CW.const(0))])
+            r = lm(w, bb, t, argv, env)
+            if r is not None:
+                return r
+            return std(w, bb, t, argv, env)
+        w = CW.Walk(ctx, v, [hook], max_states=60000)
+
+        def on_visit(bb, env):
+            tm = v.blocks[bb]["term"]
+            if tm and tm["k"] == "return":
+                r0 = env.get(0, CW.TOP)
+                if r0[0] == "adt" and r0[2] == "Ok":
+                    seen.add("return-ok")
+                elif r0[0] != "adt":
+                    seen.add("return-?")
+        w.on_visit = on_visit
+        env = {p: the_map for p in params}
+        start = 0
+        try:
+            w.explore(start, env)
+        except CW.Limit:
+            return None
+        # the written document: {P1: [V1, V2], P2: [V3]} - every violation once, under its file
+        for doc in docs:
+            got = _doc_shape(doc)
+            if got is None:
+                if doc_ok[0] is not False and (doc[0] != "list" or doc[1]):
+                    doc_ok[0] = None if doc_ok[0] is None or doc_ok[0] is True and False else doc_ok[0]
+                    doc_unknown[0] = True
+                continue
+            if got == {"P1": ["V1", "V2"], "P2": ["V3"]}:
+                if doc_ok[0] is None and not doc_unknown[0]:
+                    doc_ok[0] = True
+            else:
+                doc_ok[0] = False
+                doc_bad.append((case, got))
+        any_err = "Error" in case
+        want_exit = any_err
+        desc = "violations {P1: [V1=%s, V2=%s], P2: [V3=%s]}" % case
+        if not params and "return-ok" in seen and want_exit:
+            # in main, Ok returns exist on other paths (list, no violations...): only the exit side is decisive
+            seen.discard("return-ok")
+        if ("exit" in seen) != want_exit:
+            out.viol(rule, "%s|%s|exit" % (rule, "".join(c[0] for c in case)), ctx.where(b0),
+                     "%s: process::exit is %s; expected: the run fails exactly when at least one diagnostic has severity error, whatever its position among the files and diagnostics" % (desc, "reached" if "exit" in seen else "not reached"))
+        elif params and want_exit and "return-ok" in seen:
+            out.viol(rule, "%s|%s|ok" % (rule, "".join(c[0] for c in case)), ctx.where(b0),
+                     "%s: the report function can also return normally (exit status 0) although an error diagnostic exists" % desc)
+        elif params and not want_exit and "return-ok" not in seen:
+            out.viol(rule, "%s|%s|no-return" % (rule, "".join(c[0] for c in case)), ctx.where(b0), "%s: the report function does not return normally although no diagnostic is an error" % desc)
+        else:
+            n += 1
+    out.inst(rule, n, 8, ["{P1: [V1, V2], P2: [V3]} x severities {error, warning}^3: exit iff some error"], exhaustive=True)
+    ctx.__dict__["_report_doc"] = (False, doc_bad[:1]) if doc_ok[0] is False else ((True, []) if doc_ok[0] and not doc_unknown[0] else (None, []))
+    return n == 8
+
+
+def _doc_shape(doc):
+    """{file symbol: sorted violation symbols} of a written document value, or None if not fully known"""
+    if doc[0] != "list":
+        return None
+    res = {}
+    for x in doc[1]:
+        if x[0] != "tuple" or len(x[1]) != 2 or x[1][0][0] != "sym":
+            return None
+        vals = x[1][1]
+        if vals[0] != "list":
+            return None
+        vs = []
+        for j in vals[1]:
+            if j[0] == "sym" and j[1] == "json" and len(j) > 2 and j[2][0] == "sym":
+                vs.append(j[2][1])
+            elif j[0] == "adt" and str(j[1]).endswith("SimpleDiagnostic"):
+                of = [x for k, x in j[4] if k == "of"]
+                if not of or of[0][0] != "sym":
+                    return None
+                vs.append(of[0][1])
+            else:
+                return None
+        res[x[1][0][1]] = sorted(vs)
+    return res
 
 
 def run(ctx, out, tier):
